@@ -119,7 +119,7 @@ m("C18", "C18-swap-copies", "R18-swap:Swap", ("table.go", "lv.Values[i], lv.Valu
 m("C18", "C18-less-args-swapped", "R18-swap:Less:comparator", ("table.go", "\t\tlv.L.Push(lv.Values[i])\n\t\tlv.L.Push(lv.Values[j])", "\t\tlv.L.Push(lv.Values[j])\n\t\tlv.L.Push(lv.Values[i])"))
 m("C18", "C18-remove-default-first", "R18-delegate:tableRemove:default-last", ("tablelib.go", "L.Push(tbl.Remove(-1))", "L.Push(tbl.Remove(1))"))
 # ---- C19
-m("C19", "C19-read-no-closed-guard", "R19-closed:fileReadAux", ("iolib.go", "\tif n := fileIsReadable(L, file); n != 0 {\n\t\treturn n\n\t}\n\terrorIfFileIsClosed(L, file)\n\tif L.GetTop() == idx-1 {", "\tif n := fileIsReadable(L, file); n != 0 {\n\t\treturn n\n\t}\n\tif L.GetTop() == idx-1 {"))
+m("C19", "C19-read-no-closed-guard", "R19-closed:fileRead", ("iolib.go", "\tif n := fileIsReadable(L, file); n != 0 {\n\t\treturn n\n\t}\n\terrorIfFileIsClosed(L, file)\n\tif L.GetTop() == idx-1 {", "\tif n := fileIsReadable(L, file); n != 0 {\n\t\treturn n\n\t}\n\tif L.GetTop() == idx-1 {"))
 m("C19", "C19-write-error-exit-keeps-buffer", "R19-reconcile:fileWriteAux", ("iolib.go", "errreturn:\n\n\tfile.AbandonReadBuffer()\n\tL.Push(LNil)", "errreturn:\n\n\tL.Push(LNil)"))
 m("C19", "C19-w-without-trunc", "R19-modes:mode:w", ("iolib.go", "\tcase \"w\", \"wb\":\n\t\tmode = os.O_WRONLY | os.O_TRUNC | os.O_CREATE", "\tcase \"w\", \"wb\":\n\t\tmode = os.O_WRONLY | os.O_CREATE"))
 m("C19", "C19-seek-keeps-buffer", "R19-reconcile:fileSeek", ("iolib.go", "\terr = file.AbandonReadBuffer()\n\tif err != nil {\n\t\tgoto errreturn\n\t}\n\n\tpos, err = file.fp.Seek", "\tpos, err = file.fp.Seek"))
@@ -141,5 +141,35 @@ def main():
         json.dump(by[prop] + keep, open(path, "w"), indent=1)
         print(prop, len(by[prop]), "hand +", len(keep), "seeded")
 
+
+# ---- rules added from the second round of seeded changes
+m("C01", "C01-threading-reads-patched-label", "R01-threading:patchCode:label-lookup#1:only-unpatched", ("compile.go", "\t\t\t\tif at < pc {\n\t\t\t\t\t// instructions before pc are already patched: sBx is a distance, no longer a label\n\t\t\t\t\td = at + opGetArgSbx(jmp) - pc\n\t\t\t\t} else {\n\t\t\t\t\td = context.GetLabelPc(opGetArgSbx(jmp)) - pc\n\t\t\t\t}", "\t\t\t\t_ = at\n\t\t\t\td = context.GetLabelPc(opGetArgSbx(jmp)) - pc"))
+m("C08", "C08-threading-no-hop-bound", "R08-terminate:patchCode:loop#1", ("compile.go", "opGetOpCode(jmp) == OP_JMP && count < 5;", "opGetOpCode(jmp) == OP_JMP && (count == 0 || distance != 0);"))
+m("C08", "C08-concat-pop-loop-no-step", "R08-terminate:compileStringConcatOpExpr:loop#1", ("compile.go", "for pc := code.LastPC(); pc != 0 && opGetOpCode(code.At(pc)) == OP_CONCAT; pc-- {\n\t\tcode.Pop()", "for pc := code.LastPC(); pc != 0 && opGetOpCode(code.At(pc)) == OP_CONCAT; pc = code.LastPC() {\n\t\tcode.Pop()"))
+m("C05", "C05-where-no-pc-guard", "R17-where:(*LState).where:pc-guard", ("state.go", "\t\tif cf.Pc > 0 {\n\t\t\tline = fmt.Sprintf(\"%v:\", proto.DbgSourcePositions[cf.Pc-1])\n\t\t} else {", "\t\tif cf.Pc != 0 || true {\n\t\t\tline = fmt.Sprintf(\"%v:\", proto.DbgSourcePositions[cf.Pc-1])\n\t\t} else {"))
+m("C04", "C04-objlen-len-only-for-tables", "R04-events:(*LState).ObjLen:__len:any-operand-type", ("state.go", "\top := ls.metaOp1(v1, \"__len\")\n\tif op.Type() == LTFunction {", "\top := LValue(LNil)\n\tif v1.Type() == LTTable {\n\t\top = ls.metaOp1(v1, \"__len\")\n\t}\n\tif op.Type() == LTFunction {"))
+m("C09", "C09-rawsetint-nil-truncates", "R09-owner:array-shrinker:(*LTable).RawSetInt", ("table.go", "func (tb *LTable) RawSetInt(key int, value LValue) {\n", "func (tb *LTable) RawSetInt(key int, value LValue) {\n\tif value == LNil && key == len(tb.array) && key > 0 {\n\t\ttb.array = tb.array[:key-1]\n\t\treturn\n\t}\n"))
+m("C14", "C14-alpha-class-unicode", "R14-bytes:", ("pm/pm.go", "\tcase 'a', 'A':\n\t\tret = 'A' <= ch && ch <= 'Z' || 'a' <= ch && ch <= 'z'", "\tcase 'a', 'A':\n\t\tret = unicode.IsLetter(rune(ch))"), ("pm/pm.go", "import (\n\t\"fmt\"\n)", "import (\n\t\"fmt\"\n\t\"unicode\"\n)"))
+m("C16", "C16-print-int-path-below-2p31", "R16-print:LNumber.String", ("value.go", "func (nm LNumber) String() string {\n\tif isInteger(nm) {", "func (nm LNumber) String() string {\n\tif isInteger(nm) && nm < 2147483648 && nm > -2147483648 {"))
+m("C12", "C12-pop-returns-freed-segment", "R13-poolrelease:(*autoGrowingCallFrameStack).Pop", ("state.go", "\t\tcs.segSp = FramesPerSegment\n\t\tcurSeg = cs.segments[cs.segIdx]\n", "\t\tcs.segSp = FramesPerSegment\n"))
+
+
+m("C01", "C01-call-in-place-in-last-param", "R01-callregs:compileFuncCallExpr:frame-starts-at-given-temporary", ("compile.go", "\tfuncreg := reg\n\targc := len(expr.Args)", "\tfuncreg := reg\n\tif ec.ctype == ecLocal && ec.reg == (int(context.Proto.NumParameters)-1) {\n\t\tfuncreg = ec.reg\n\t\treg = ec.reg\n\t}\n\targc := len(expr.Args)"))
+m("C01", "C01-genericfor-explist-to-loop-names", "R01-callregs:compileGenericForStmt:explist-initialises-three-hidden-variables", ("compile.go", "compileRegAssignment(context, hidden, stmt.Exprs, context.RegTop()-3, 3, sline(stmt))", "compileRegAssignment(context, stmt.Names, stmt.Exprs, context.RegTop()-3, 3, sline(stmt))\n\t_ = hidden"))
+m("C01", "C01-peephole-kmv-no-dest-test", "R01-peephole:(*codeStore).PropagateMV", ("compile.go", "func (cd *codeStore) PropagateMV(top int, save *int, reg *int, inc int) {\n\tlastinst := cd.Last()\n\tif opGetArgA(lastinst) >= top {", "func (cd *codeStore) PropagateMV(top int, save *int, reg *int, inc int) {\n\tlastinst := cd.Last()\n\tif top >= 0 {"))
+m("C17", "C17-error-level-minus-one-always", "R17-where:raiseError:level-counts-from-host-function", ("state.go", "\t\t\t// raised from a host function: that function is level 0 and level 1 is its caller\n\t\t\tat = level\n", "\t\t\t// raised from a host function: that function is level 0 and level 1 is its caller\n\t\t\tat = level - 1\n"))
+
+m("C17", "C17-endpc-inclusive-writer", "R17-scope:(*funcContext).EndScope:EndPc-convention", ("compile.go", "\t\tinfo.EndPc = fc.Code.LastPC() + 1\n", "\t\tinfo.EndPc = fc.Code.LastPC()\n"))
+m("C17", "C17-endscope-by-register", "R17-scope:(*funcContext).EndScope:EndPc-record", ("compile.go", "\tfor _, info := range fc.Block.dbgLocals {\n\t\tinfo.EndPc = fc.Code.LastPC() + 1\n\t}", "\tfor _, vr := range fc.Block.LocalVars.List() {\n\t\tfc.Proto.DbgLocals[vr.Index].EndPc = fc.Code.LastPC() + 1\n\t}"))
+
+m("C01", "C01-local-declared-before-function-value", "R01-callregs:compileLocalAssignStmt:declare-before-value", ("compile.go", "\tif stmt.LocalFunction && len(stmt.Names) == 1 && len(stmt.Exprs) == 1 {", "\tif len(stmt.Names) == 1 && len(stmt.Exprs) == 1 {"))
+
+m("C05", "C05-handler-pushed-before-inner-recover", "R05-handlerarm:PCall$1:(*LState).Push", ("state.go", "\t\t\tif errfunc != nil {\n\t\t\t\tls.Panic = panicWithoutTraceback\n\t\t\t\tdefer func() {", "\t\t\tif errfunc != nil {\n\t\t\t\tls.Push(errfunc)\n\t\t\t\tls.Push(err.(*ApiError).Object)\n\t\t\t\tls.Panic = panicWithoutTraceback\n\t\t\t\tdefer func() {"), ("state.go", "\t\t\t\t// pushing can itself fail (registry overflow), so it is done under the recover above\n\t\t\t\tls.Push(errfunc)\n\t\t\t\tls.Push(err.(*ApiError).Object)\n", ""))
+m("C06", "C06-yield-from-nested-loop", "R06-killarg:callGFunction:switch#1:yield-only-from-base-loop", ("vm.go", "\t\tif baseframe != nil {\n\t\t\t// this loop was entered from a host function or a metamethod call;\n\t\t\t// the Go frames in between cannot be suspended\n\t\t\tL.RaiseError(\"attempt to yield across metamethod/C-call boundary\")\n\t\t}\n", ""))
+
+m("C07", "C07-regcount-closure-dest-ignored", "R07-regcount:OP_CLOSURE", ("compile.go", "\t\tcase OP_CLOSURE:\n\t\t\tif reg := opGetArgA(inst); reg > maxreg {\n\t\t\t\tmaxreg = reg\n\t\t\t}\n", "\t\tcase OP_CLOSURE:\n"))
+m("C07", "C07-regcount-forloop-var-ignored", "R07-regcount:OP_FORLOOP", ("compile.go", "\t\t\tOP_TAILCALL, OP_RETURN, OP_CLOSE:\n\t\t\t/* nothing to do */\n\t\tcase OP_FORPREP, OP_FORLOOP:", "\t\t\tOP_TAILCALL, OP_RETURN, OP_CLOSE, OP_FORLOOP:\n\t\t\t/* nothing to do */\n\t\tcase OP_FORPREP:"))
+m("C07", "C07-regcount-tforloop-ignored", "R07-regcount:OP_TFORLOOP", ("compile.go", "\t\t\tOP_TAILCALL, OP_RETURN, OP_CLOSE:\n\t\t\t/* nothing to do */", "\t\t\tOP_TAILCALL, OP_RETURN, OP_CLOSE, OP_TFORLOOP:\n\t\t\t/* nothing to do */"), ("compile.go", "\t\tcase OP_TFORLOOP:\n\t\t\t// the iterator call is laid out in R(A+3)..R(A+5), its results are R(A+3)..R(A+2+C)\n\t\t\tif reg := opGetArgA(inst) + 2 + intMax(opGetArgC(inst), 3); reg > maxreg {\n\t\t\t\tmaxreg = reg\n\t\t\t}\n", ""))
+m("C07", "C07-regcount-self-only-a", "R07-regcount:OP_SELF", ("compile.go", "\t\t\tif reg := opGetArgA(inst) + 1; reg > maxreg {", "\t\t\tif reg := opGetArgA(inst); reg > maxreg {"))
 if __name__ == "__main__":
     main()
